@@ -51,15 +51,17 @@ class Acc(object):
         self.keys = Counter()
 
     def note(self, law, case, distinct_by_construction):
-        self.evals += 1
+        w = law.weight(case)
+        self.evals += w
         for c in law.classes(case):
-            self.classes[c] += 1
+            self.classes[c] += w
         if law.nontrivial(case):
             if distinct_by_construction:
-                self.nontrivial_n += 1
+                self.nontrivial_n += w
             else:
                 self.digests.add(values.case_digest(case))
-        n = self.evals
+        self.ncases = getattr(self, 'ncases', 0) + 1
+        n = self.ncases
         if n <= 2 or (n & (n - 1)) == 0:
             self.samples.append(case)
 
@@ -147,6 +149,9 @@ def run_task(task):
                     acc.skipped[s.why] += 1
                 except Violation as v:
                     acc.note(law, case, True)
+                    if v.case is not None:
+                        case = v.case
+                        k = law.key(case)
                     failures.append({'key': k, 'case': case, 'msg': v.msg,
                                      'observed': values.enc(v.observed), 'expected': values.enc(v.expected)})
                     excluded.add(k)
